@@ -49,7 +49,13 @@ impl ParseData for FromAttributesOptions {
     }
 
     fn parse_field(&mut self, field: &syn::Field) -> Result<()> {
-        self.base.parse_field(field)
+        // There is no identifier to pass along with a bare list of attributes, so a field
+        // named `ident` is an ordinary field here rather than a magic one.
+        if field.ident.as_ref().map_or(false, |ident| ident == "ident") {
+            self.base.container.parse_field(field)
+        } else {
+            self.base.parse_field(field)
+        }
     }
 
     fn validate_body(&self, errors: &mut crate::error::Accumulator) {
